@@ -107,6 +107,7 @@ type Enc struct {
 	unknownCalls  map[string]int
 	usedGlobals   []string
 	instDone      map[string]bool
+	freshApplied  map[string]bool
 }
 
 type Frame struct {
@@ -127,7 +128,7 @@ type Frame struct {
 	curBlock *ssa.BasicBlock
 	curInstr ssa.Instruction
 	rangeSt  map[*ssa.Range]*rangeState
-	escaped  map[ssa.Value]bool
+	escaped  map[ssa.Value]ssa.Instruction // first escaping use
 	held     map[*ssa.BasicBlock]map[string]string // lockset per block (C20)
 	defers   []*ssa.Defer
 }
@@ -430,7 +431,7 @@ func (f *Frame) safetyObl(kind, what, goal string) {
 func (e *Enc) newFrame(fn *ssa.Function, parent *Frame, prefix string) *Frame {
 	f := &Frame{enc: e, fn: fn, vals: map[ssa.Value]*Val{}, prefix: prefix, parent: parent,
 		reach: map[*ssa.BasicBlock]string{}, exit: map[*ssa.BasicBlock]*State{}, loopOf: map[*ssa.BasicBlock]*loopInfo{},
-		params: map[string]*Val{}, rangeSt: map[*ssa.Range]*rangeState{}, escaped: map[ssa.Value]bool{}}
+		params: map[string]*Val{}, rangeSt: map[*ssa.Range]*rangeState{}, escaped: map[ssa.Value]ssa.Instruction{}}
 	if parent != nil {
 		f.depth = parent.depth + 1
 	}
